@@ -107,6 +107,10 @@ def wild_edit(rng, spec):
             if len(it) < 3:
                 it.append({})
             it[2]["cloning"] = "never"
+            # (a registration-level override needs an explicit registration: a constructor that came in through
+            # `bp.import(..)` is registered by hand instead)
+            it[2].pop("import", None)
+            c.pop("module_import", None)
             hs = list(spec["handlers"].values())
             ms = list(spec["mws"].values())
             for x in rng.sample(hs, min(2, len(hs))) + rng.sample(ms, min(1, len(ms))):
